@@ -95,8 +95,12 @@ fn reencode_plutus_array(
     }
 }
 
+// 4. Integers are encoded from their value: a small integer that was *decoded* from the
+//    (legal) bignum form is re-encoded as a plain CBOR integer.
 fn reencode_plutus_bigint(i: &BigInt, e: &mut minicbor::Encoder<&mut Vec<u8>>) {
-    e.encode(i)
+    let canonical = machine::value::to_pallas_bigint(&machine::value::from_pallas_bigint(i));
+
+    e.encode(canonical)
         .expect("failed to encode BigInt in a bytes buffer?!");
 }
 
